@@ -1,6 +1,7 @@
 package harness
 
 import (
+	"regexp"
 	"fmt"
 	"math/big"
 	"os"
@@ -84,7 +85,7 @@ func (e *Env) livenessClass(s *State, v, d int, res string) string {
 		if e.Mon.ValueChanged {
 			return "pool_short_after_value_change" // D6: entitlements follow CURRENT token values
 		}
-		if precisionStressed(s) {
+		if precisionStressed(s) || precisionShortfall(s, lastDetail) {
 			return "pool_short_large_stake" // 18-digit share ratios / indices out of resolution
 		}
 		return "pool_short"
@@ -202,7 +203,7 @@ func (e *Env) Probe(st *Step) {
 				cls := "pool_short"
 				if e.Mon.ValueChanged {
 					cls = "pool_short_after_value_change" // D6: payout uses current token value
-				} else if a := post.Asset(dl.Denom); a != nil && a.T.Cmp(bigE15) >= 0 || precisionStressed(post) {
+				} else if a := post.Asset(dl.Denom); a != nil && a.T.Cmp(bigE15) >= 0 || precisionStressed(post) || precisionShortfall(post, lastDetail) {
 					cls = "pool_short_large_stake" // the 18-digit per-token index rounds up; times a large stake
 				}
 				st.pfail("C12", cls, "claim of (%d,%d,%d) fails when everybody claims: pool holds %s", dl.Del, dl.Val, dl.Denom, e.App.BankKeeper.GetAllBalances(cctx, e.acctAddr[AccPool]))
@@ -374,6 +375,32 @@ func precisionStressed(s *State) bool {
 		}
 	}
 	return false
+}
+
+var reShort = regexp.MustCompile(`spendable balance (\d+)\S* is smaller than (\d+)`)
+
+// precisionShortfall: the pool is short by no more than the 18-digit resolution of the validators' share ratios explains:
+// a validator holding the fraction r of an asset has its token total computed to a relative 1e-18/r, and the rewards it
+// receives are over-entitled by up to that much (quantitative form of precisionStressed, from the bank's error text)
+func precisionShortfall(s *State, detail string) bool {
+	m := reShort.FindStringSubmatch(detail)
+	if m == nil {
+		return false
+	}
+	have, want := bi(m[1]), bi(m[2])
+	short := new(big.Rat).SetFrac(new(big.Int).Sub(want, have), want)
+	bound := new(big.Rat)
+	for i := range s.Assets {
+		a := &s.Assets[i]
+		for j := range s.Vals {
+			vs := dcAmt(s.Vals[j].VS, a.Denom)
+			if vs.Sign() > 0 && a.S.Sign() > 0 {
+				// 8e-18 / (vs/S)
+				bound.Add(bound, new(big.Rat).Mul(big.NewRat(8, 1_000_000_000_000_000_000), new(big.Rat).SetFrac(a.S, vs)))
+			}
+		}
+	}
+	return short.Cmp(bound) <= 0
 }
 
 // poolLarge: some reward balance of the pool is at least 1e15 base units
